@@ -9,7 +9,7 @@
 From Coq Require Import QArith Reals.
 From Flocq Require Import Core.Core IEEE754.BinarySingleNaN.
 From SC Require Import Base.Prelude Cmp.Cmp Cmp.Logic Cmp.Tolerance Cmp.FloatB64 Cmp.GoTime Cmp.Spec Cmp.LogicProofs Cmp.ToleranceProofs Cmp.FloatB64Proofs
-  Cmp.GoTimeProofs Cmp.CmpProofs Cmp.CmpTableProofs Cmp.SpecSymProofs Cmp.CollEquiv Cmp.CollEquivProofs Cmp.C16Judge Cmp.TreeProofs Cmp.JudgeProofs Cmp.CollJudgeProofs Cmp.MaskJudgeProofs Cmp.CollLossy Cmp.CollLossyProofs
+  Cmp.GoTimeProofs Cmp.CmpProofs Cmp.CmpTableProofs Cmp.SpecSymProofs Cmp.CollEquiv Cmp.CollEquivProofs Cmp.C16Judge Cmp.TreeProofs Cmp.JudgeProofs Cmp.CollJudgeProofs Cmp.MaskJudgeProofs Cmp.MaskCollJudgeProofs Cmp.CollLossy Cmp.CollLossyProofs
   Resource.Impl Resource.Pull Resource.PullProofs.
 Open Scope Z_scope.
 
@@ -311,6 +311,26 @@ Theorem C16_judge_sound_masked_stream : forall paths e seed writes emitted,
   let c := KStreamM paths e seed writes emitted in
   agrees_core c = true -> mask_stream_scope paths e seed writes = true -> ok_core c = true.
 Proof. exact mask_stream_sound. Qed.
+
+(* read-mask whole collections (Collection.Pull WithReadPaths, optional WithInclude / WithUpdatesOnly): inclusion
+   is decided on the stored value, the equivalence sees and the subscriber holds filtered values; the hypotheses
+   (guard, scope: [tree_ok]) are on the FILTERED values; distinct ids *)
+Theorem C16_judge_sound_masked_collection : forall paths e uo thr init ops emitted,
+  let c := KCollM paths e uo thr init ops emitted in
+  agrees_core c = true -> mask_coll_scope c = true -> ok_core c = true.
+Proof. exact mask_coll_judge_sound. Qed.
+
+(* "a" = (1, "x") seen through the mask {default_double} and WithInclude(default_double >= 1) under a margin of 1/2:
+   a write that changes only the hidden string is not delivered, 2 is, 1/2 leaves the included set: a REMOVE *)
+Example C16_nonvacuous_masked_collection :
+  let m (d : Q) (s : string) := CM "sc.go.test.TestAllTypes" true
+        [("default_double"%string, CS (CF64 (FFin d))); ("default_string"%string, CS (CStr s))] [] in
+  let v (d : Q) := CM "sc.go.test.TestAllTypes" true [("default_double"%string, CS (CF64 (FFin d)))] [] in
+  let c := KCollM ["default_double"%string] (EAnd [VFloat 0 (1#2)]) false (Some (1#1)) [("a"%string, m (1#1) "x"%string)]
+             [("a"%string, Some (m (1#1) "y"%string)); ("a"%string, Some (m (2#1) "y"%string)); ("a"%string, Some (m (1#2) "y"%string))]
+             [("a"%string, None, Some (v (1#1))); ("a"%string, Some (v (1#1)), Some (v (2#1))); ("a"%string, Some (v (2#1)), None)] in
+  (agrees c && C16_guard c && mask_coll_scope c && C16_ok c) = true.
+Proof. vm_compute. reflexivity. Qed.
 
 Theorem C16_judge_sound_comb : forall is_or es x y,
   ok_obs x y (false, false)
@@ -630,6 +650,7 @@ Print Assumptions C16_durp_reflexive_refuted.
 Print Assumptions C16_durp_only_own_kind.
 Print Assumptions C16_judge_sound.
 Print Assumptions C16_judge_sound_masked_stream.
+Print Assumptions C16_judge_sound_masked_collection.
 Print Assumptions C16_judge_sound_comb.
 Print Assumptions C16_reference_symmetric.
 Print Assumptions C16_reference_reflexive.
